@@ -55,7 +55,7 @@ def main(argv):
     try:
         shutil.copytree(os.path.join(REPO, "src"), os.path.join(tmp, "src"),
                         ignore=shutil.ignore_patterns("__pycache__", "*.pyc"))
-        r = subprocess.run(["git", "apply", "--unsafe-paths", "--directory",
+        r = subprocess.run(["git", "apply", "--include=*src/chameleon/*", "--unsafe-paths", "--directory",
                             tmp, patch], capture_output=True, text=True,
                            cwd=tmp)
         if r.returncode != 0:
